@@ -218,3 +218,49 @@ Example c10_lowering_example :
   = LOk [drange 0 3; drange 0 3; drange 0 9; [2]]
         [PLinLe [1; 1] [0%nat; 1%nat] 3; PMul (VVar 0) (VVar 1) 2; PEq (VVar 2) (VVar 3)].
 Proof. vm_compute. reflexivity. Qed.
+
+(* ---- the helpers over a Vec<Constraint>: and_all / or_all (Constraint::and_all / or_all and the free functions),
+   all_of = and_all, any_of = or_all (Model/Api.v c_and_all ..): None exactly on the empty vector, otherwise a
+   left-nested chain ---- *)
+Theorem and_all_none : forall cs, c_and_all cs = None <-> cs = [].
+Proof. exact LowerProofs.and_all_none. Qed.
+Print Assumptions and_all_none.
+Theorem or_all_none : forall cs, c_or_all cs = None <-> cs = [].
+Proof. exact LowerProofs.or_all_none. Qed.
+Print Assumptions or_all_none.
+Theorem all_of_is_and_all : forall cs, c_all_of cs = c_and_all cs.
+Proof. exact LowerProofs.all_of_is_and_all. Qed.
+Print Assumptions all_of_is_and_all.
+Theorem any_of_is_or_all : forall cs, c_any_of cs = c_or_all cs.
+Proof. exact LowerProofs.any_of_is_or_all. Qed.
+Print Assumptions any_of_is_or_all.
+(* the arithmetic reading *)
+Theorem and_all_holds : forall cs c a, c_and_all cs = Some c -> holds c a = forallb (fun x => holds x a) cs.
+Proof. exact LowerProofs.and_all_holds. Qed.
+Print Assumptions and_all_holds.
+Theorem or_all_eval : forall cs c a, c_or_all cs = Some c ->
+  eval_cons c a = if forallb (fun x => defined x a) cs then Some (existsb (fun x => holds x a) cs) else None.
+Proof. exact LowerProofs.or_all_eval. Qed.
+Print Assumptions or_all_eval.
+(* lowering: and_all / all_of is faithful — the members are materialised one after the other, the chain is in the
+   class kf_or_not only if a member is, and what the lowering enforces is the conjunction *)
+Theorem and_all_materialize : forall cs c st, c_and_all cs = Some c ->
+  materialize c st = fold_left (fun st x => materialize x st) cs st.
+Proof. exact LowerProofs.and_all_materialize. Qed.
+Print Assumptions and_all_materialize.
+Theorem and_all_kf : forall cs c, c_and_all cs = Some c -> kf_or_not c = existsb kf_or_not cs.
+Proof. exact LowerProofs.and_all_kf. Qed.
+Print Assumptions and_all_kf.
+Theorem and_all_impl : forall cs c a, c_and_all cs = Some c -> impl_cons c a = forallb (fun x => impl_cons x a) cs.
+Proof. exact LowerProofs.and_all_impl. Qed.
+Print Assumptions and_all_impl.
+(* or_all / any_of of three or more members always lies in the known class D3 (Or lowered like And) *)
+Theorem or_all_kf : forall c0 c1 c2 r c, c_or_all (c0 :: c1 :: c2 :: r) = Some c -> kf_or_not c = true.
+Proof. exact LowerProofs.or_all_kf. Qed.
+Print Assumptions or_all_kf.
+Theorem any_of_refuted : exists decls cs c a s ps,
+  c_any_of cs = Some c /\ kf_or_not (fold_cons c) = true /\ lower (build (decls ++ [SNew c])) = LOk s ps /\
+  inst a (map decl_dom decls) /\ eval_cons c a = Some true /\
+  ~ (exists a', agree (length decls) a a' /\ inst a' s /\ allsat ps a').
+Proof. exact LowerProofs.any_of_refuted. Qed.
+Print Assumptions any_of_refuted.
